@@ -51,7 +51,7 @@ Definition f9 : machine := Build_machine
   [ n_ "m" None KCompound [1; 2; 3] (Some 1) 0
        [("SLOW"%string, [Build_trans 1 0 "SLOW" TNone None [ASlow 1 80] false false]);
         ("LEAVE"%string, [tr 2 0 "LEAVE" 2]); ("BACK"%string, [tr 3 0 "BACK" 1])] [];
-    n_ "m.work" (Some 0) KAtomic [] None 1 [] [Build_invoke "job" 1 [tr 4 1 "done.invoke.job" 3] [] 50 true 7%Z];
+    n_ "m.work" (Some 0) KAtomic [] None 1 [] [Build_invoke "job" 1 [tr 4 1 "done.invoke.job" 3] [] 50 true 7%Z false];
     n_ "m.idle" (Some 0) KAtomic [] None 1 [] [];
     n_ "m.finished" (Some 0) KAtomic [] None 1 [] [] ] 10 None.
 Definition e_ ty : event := Build_event ty EPlain 0.
